@@ -273,6 +273,12 @@ def check(chk, fx):
                     chk.ok("IMM-9", s, "type '%s' owns its data or points to const" % t[:60])
 
 
+    # ---------------------------------------------------------------- library functors leave lvalues alone
+    # a context or value that the caller still owns reaches the helper functors (_e1.., val, create, ...) as an lvalue:
+    # the helpers may move only from rvalues, or one call empties what the next call (or the caller) relies on
+    from . import c19
+    c19.hlp_t(chk, ("clang++",))
+
     # ---------------------------------------------------------------- IMM-10 grammar objects own their members
     owners = ("ctpg::detail::rule", "ctpg::term", "ctpg::char_term", "ctpg::string_term", "ctpg::regex_term",
               "ctpg::custom_term", "ctpg::typed_term", "ctpg::nterm")
